@@ -870,13 +870,27 @@ def rule_model_width(ctx):
             if callee_is(callee_of(s), "sat::sat_solver::Assignment::new"):
                 m_roots |= _quantity_roots(prog, sb, s.node["args"][0])
         r.check(n_roots and n_roots <= m_roots, nb.id, "roots:%s/%s" % (sorted(n_roots), sorted(m_roots)), "n_vars() derives from %s, all of which size the model (%s)" % (sorted(n_roots), sorted(m_roots)), "n_vars() derives from %s but the model from %s" % (sorted(n_roots), sorted(m_roots)), nb.loc())
+        # freshness: a back end that can declare variables while solving (assumptions on unseen variables) must be
+        # asked for its variable count *after* the solve call when the model is sized
+        backend_solves = [s for s in sb.calls() if (callee_of(s) or {}).get("crate") not in ("std", "core", "alloc", None) and not (callee_of(s) or {}).get("local") and callee_matches(callee_of(s), r"solve")]
+        if backend_solves:
+            stale = []
+            for s in sb.calls():
+                if callee_is(callee_of(s), "sat::sat_solver::Assignment::new"):
+                    _, calls, _ = data_deps(sb, s.node["args"][0])
+                    for c in calls:
+                        cc = callee_of(c)
+                        if cc and (callee_matches(cc, r"max_variable$|SatSolver>?::n_vars$|SatSolver::n_vars$")):
+                            if not any(sb.dominates(bs, c) for bs in backend_solves):
+                                stale.append(c)
+            r.check(not stale, sb.id + "|fresh-count", "stale-variable-count", "the variable count sizing the model is read after the back end solved", "the model is sized from a variable count read before the back end solved: an assumption on a new variable makes n_vars() exceed the model", stale[0].loc() if stale else sb.loc())
 
 
-def _quantity_roots(prog, body, op):
+def _quantity_roots(prog, body, op, depth=0):
+    """integer quantities a value is computed from: `self.<int field>` reads and calls into the back-end
+    crate; calls of local methods on self are expanded (callee summaries)"""
     seen, calls, _ = data_deps(body, op)
     roots = set()
-    for x in [body] + prog.closures_of(body):
-        pass
     for s in body.sites():
         n = s.node
         if s.si is None or n["k"] != "assign" or n["dst"]["l"] not in seen:
@@ -892,4 +906,15 @@ def _quantity_roots(prog, body, op):
         c = callee_of(s)
         if c and not c.get("local") and c.get("crate") not in ("std", "core", "alloc"):
             roots.add(strip_generics(callee_name(c)))
+        elif c and depth < 3:
+            tgt = prog.body_for_callee(c, body)
+            if tgt is not None and tgt.kind != "closure" and tgt.ret_ty in ("usize", "i32", "isize"):
+                roots |= _quantity_roots(prog, tgt, {"c": {"l": 0, "p": []}}, depth + 1)
+    for x in prog.closures_of(body):
+        # quantities read inside closures feeding the value (iterator adaptors)
+        if any(callee_of(cs) and x.path in (callee_of(cs).get("fn_args") or []) for cs in calls):
+            for s in x.calls():
+                c = callee_of(s)
+                if c and not c.get("local") and c.get("crate") not in ("std", "core", "alloc"):
+                    roots.add(strip_generics(callee_name(c)))
     return roots
